@@ -194,13 +194,15 @@ def run_sequence(case, exe):
             sub = "src/" if (k[0] == "check" and k[1] == "subdir") else None
             o["summary"] = pr.summary(now, ["src"] if sub else [])
             if k[0] == "snapshot":
-                args = ["snapshot"] + (["--force"] if k[1] else []) + (["--dry-run"] if k[2] else [])
+                # the SLOC cache is C12's subject; under the simulated clock (SGV_NOW far from the files' real mtimes) its
+                # same-second guard cannot work, so it is switched off for every counting command of this leg
+                args = ["snapshot", "--no-sloc-cache"] + (["--force"] if k[1] else []) + (["--dry-run"] if k[2] else [])
                 o["rc"], o["out"], o["err"] = pr.run(args, now)
                 o["pfiles"] = pr.pfiles(None)
                 o["model_cmd"] = "snapshot:%d:%d" % (k[1], k[2])
             elif k[0] == "check":
                 mode = k[1]
-                args = ["check", "--format", "json"]
+                args = ["check", "--no-sloc-cache", "--format", "json"]
                 live = sorted(pr.files)
                 if mode == "files":
                     sel = rng.sample(live, rng.randint(1, max(1, len(live) - 1)))
@@ -246,13 +248,13 @@ def run_sequence(case, exe):
                 o["model_cmd"] = "check:%d:%d:%d" % (int(bool(case["cfg"].get("auto"))), int(passed), int(partial))
             else:
                 if k[0] == "trend":
-                    args = ["stats", "trend", "--format", "json"] + (["--since", k[1]] if k[1] is not None else [])
+                    args = ["stats", "trend", "--no-sloc-cache", "--format", "json"] + (["--since", k[1]] if k[1] is not None else [])
                 elif k[0] == "history":
                     args = ["stats", "history", "--format", "json"] + (["--limit", str(k[1])] if k[1] is not None else [])
                 elif k[0] == "report":
-                    args = ["stats", "report", "--format", "json"]
+                    args = ["stats", "report", "--no-sloc-cache", "--format", "json"]
                 else:
-                    args = ["stats", k[0], "--format", "json"]
+                    args = ["stats", k[0], "--format", "json"] + (["--no-sloc-cache"] if k[0] in ("summary", "files") else [])
                 o["rc"], o["out"], o["err"] = pr.run(args, now)
                 o["pfiles"] = pr.pfiles(None)
                 o["model_cmd"] = "stats"
@@ -356,7 +358,13 @@ def analyse(case, obs, model, profile):
                     # (compared without the git tag: the tag the new entry would carry is not observable here)
                     exp = spec_retention(c, o["now"], o["h0"] + [(o["now"], o["summary"], 0)])
                     if [e[:2] for e in exp] != [e[:2] for e in o["h0"]]:
-                        viol(i, "snapshot due (min interval elapsed / --force) but the history did not change")
+                        # ... or when the auto-snapshot's own (filtered) totals equal the entry it replaces: the recorded
+                        # finding K16_filter_mismatch (check counts another file set than stats summary)
+                        (_, _, _), restricted0, k16_0 = tot_of_pfiles(model, o["pfiles"])
+                        if k[0] == "check" and (restricted0 or k16_0):
+                            known(i, "K16_filter_mismatch", "auto-snapshot left an identical history although stats summary (%s) differs from the entry" % (o["summary"],))
+                        else:
+                            viol(i, "snapshot due (min interval elapsed / --force) but the history did not change")
             else:
                 res["nontrivial"] += 1
                 if not (force or spec_should_add(c, o["now"], o["h0"])):
